@@ -10,14 +10,14 @@ cp "$KF" "$SV/known_findings.json"; mkdir -p "$SV/evidence"
 if ! git -C "$WT" apply "$P" 2>/dev/null; then echo -e "$id\tPATCH-DOES-NOT-APPLY"; exit 0; fi
 if [ "$kind" = ref ]; then
   if ! (cd "$WT" && GOFLAGS=-mod=mod GOPROXY=off GOSUMDB=off GOTOOLCHAIN=local go build ./... >/dev/null 2>&1); then echo -e "$id\tDOES-NOT-BUILD"; exit 0; fi
-  res=$("$BIN" -prop all -repo "$WT" -verif "$SV" 2>&1 | grep -E "^[a-z].*: \[[A-Z]+\]" | sed -E 's/^([^ ]*) \[([A-Z]+)\] ([^ ]*):.*/\2 \3/' | sort -u | tr '\n' ';')
+  res=$("$BIN" -prop all -repo "$WT" -verif "$SV" 2>&1 | grep -E "^[a-z:][^ ]* \[[A-Z0-9]+\]" | sed -E 's/^([^ ]*) \[([A-Z0-9]+)\] ([^ ]*):.*/\2 \3/' | sort -u | tr '\n' ';')
   echo -e "$id\t${res:-silent}"
 else
   det=$("$BIN" -prop all -repo "$WT" -verif "$SV" 2>&1 | python3 -c '
 import sys,re
 rules=set(); res={}
 for l in sys.stdin:
-    m=re.match(r"^\S* \[([A-Z]+)\]",l)
+    m=re.match(r"^\S* \[([A-Z0-9]+)\]",l)
     if m: rules.add(m.group(1)); continue
     m=re.match(r"^VIOLATION property=(\S+)",l)
     if m:
